@@ -17,9 +17,9 @@ Proof.
       body a0 n e0) as (e' & He & HP)
   end.
   - reflexivity.
-  - intros i e Hi ->. unfold LOOP_DEPTH. cbn [loopN]. Time ev_checks.
-    Time (do 2 eexists; split; [reflexivity|]). Time rewrite xor_upto_step by lia. reflexivity.
-  - Time rewrite He. Time rewrite HP. Time evf. rewrite Nat.add_0_l, xor_upto_end. reflexivity.
+  - intros i e Hi ->. unfold LOOP_DEPTH. cbn [loopN]. ev_checks.
+    (do 2 eexists; split; [reflexivity|]). rewrite xor_upto_step by lia. reflexivity.
+  - rewrite He, HP. evf. rewrite Nat.add_0_l, xor_upto_end. reflexivity.
 Qed.
 
 Section Cbc.
@@ -37,4 +37,71 @@ Section Cbc.
     call_fn X cbc__decrypt__BlockModeDecBackend__Backend__decrypt_block [dec_self iv; VCell c]
     = let '(iv', c') := cbc_dec_block C iv c in Some (VUnit, [dec_self iv'; VCell c']).
   Proof. intros H. unfold call_fn, call_src. evf. rewrite xor_into_eq by lia. reflexivity. Qed.
+  Lemma tie_cbc_decrypt_par_blocks iv cs : cs <> [] ->
+    call_fn X cbc__decrypt__BlockModeDecBackend__Backend__decrypt_par_blocks [dec_self iv; VCells cs]
+    = Some (VUnit, [dec_self (last (map rd_in cs) iv);
+                    VCells (map2 wr_out cs (map2 xor_into (map (c_D C) (map rd_in cs)) (iv :: map rd_in cs)))]).
+  Proof.
+    intros Hne. unfold call_fn, call_src.
+    assert (Hlen : 0 < length cs) by (destruct cs; simpl; [congruence|lia]).
+    remember (map rd_in cs) as inb eqn:Einb. remember (map (c_D C) inb) as T eqn:ET.
+    assert (HT : length T = length cs) by (subst; now rewrite !map_length).
+    assert (Hin : length inb = length cs) by (subst; now rewrite !map_length).
+    unfold block in *.
+    eval_frame.
+    run_prefix 5. rewrite <- ?Einb, <- ?ET.
+    run_prefix 1.
+    match goal with |- context [for_each (seq ?a0 ?n) ?body ?e0] =>
+      destruct (for_each_seq_inv
+        (fun k e => e = [("n", VNat (length T)); ("t", VBlks (upto xor_into k T (iv :: inb)));
+                         ("in_blocks", VBlks inb); ("blocks", VRef (PVar "$a1"));
+                         ("$a1", VCells cs); ("self", VRef (PVar "$a0")); ("$a0", dec_self iv)])
+        body a0 n e0) as (e' & He & HP)
+    end.
+    - unfold upto. rewrite (upd_nth_split _ _ []) by lia. destruct T; [simpl in *; lia|]. reflexivity.
+    - intros i e Hi ->. cbn [loopN]. ev_checks.
+      do 2 eexists; split; [reflexivity|]. rewrite upd_nth_id.
+      replace (nth (i - 1) inb []) with (nth i (iv :: inb) []) by (destruct i; [lia|]; simpl; now rewrite Nat.sub_0_r).
+      rewrite upto_step by (simpl length; lia). reflexivity.
+    - rewrite He, HP. clear He HP. cbv beta iota.
+      replace (1 + (length T - 1)) with (length T) by lia.
+      rewrite upto_all by (simpl length; lia).
+      run_prefix 1. run_rest. evf.
+      rewrite (last_nth inb iv []) by (destruct inb; simpl in *; [lia|discriminate]).
+      rewrite HT, Hin. reflexivity.
+  Qed.
+
+  (* the model's parallel body is this with xorb for xor_into (equal on blocks of one size) *)
+  Lemma cbc_dec_par_model iv cs :
+    Forall (fun c => length (c_D C (rd_in c)) = length iv /\ length (rd_in c) = length iv) cs ->
+    cbc_dec_par C iv cs =
+    (last (map rd_in cs) iv, map2 wr_out cs (map2 xor_into (map (c_D C) (map rd_in cs)) (iv :: map rd_in cs))).
+  Proof.
+    intros H. unfold cbc_dec_par. f_equal. f_equal.
+    revert iv H. induction cs as [|c cs IH]; intros iv H; [reflexivity|].
+    inversion H as [|? ? [H1 H2] H3]; subst. cbn [map map2]. rewrite xor_into_eq by lia. f_equal.
+    apply IH. eapply Forall_impl; [|exact H3]. intros c' [? ?]. lia.
+  Qed.
+
+  (* inner_iv_init / iv_state *)
+  Lemma tie_cbc_enc_init iv :
+    call_fn X cbc__encrypt__InnerIvInit__Encryptor__inner_iv_init [VCipher true false; VBlk iv]
+    = Some (VStruct "Self" [("cipher", VCipher true false); ("iv", VBlk (cbc_init iv))], [VCipher true false; VBlk iv]).
+  Proof. unfold call_fn, call_src. evf. reflexivity. Qed.
+
+  Lemma tie_cbc_dec_init iv :
+    call_fn X cbc__decrypt__InnerIvInit__Decryptor__inner_iv_init [VCipher false true; VBlk iv]
+    = Some (VStruct "Self" [("cipher", VCipher false true); ("iv", VBlk (cbc_init iv))], [VCipher false true; VBlk iv]).
+  Proof. unfold call_fn, call_src. evf. reflexivity. Qed.
+
+  Lemma tie_cbc_enc_iv_state st :
+    let self := VStruct "Encryptor" [("cipher", VCipher true false); ("iv", VBlk st)] in
+    call_fn X cbc__encrypt__IvState__Encryptor__iv_state [self] = Some (VBlk (cbc_iv_state st), [self]).
+  Proof. unfold call_fn, call_src. evf. reflexivity. Qed.
+
+  Lemma tie_cbc_dec_iv_state st :
+    let self := VStruct "Decryptor" [("cipher", VCipher false true); ("iv", VBlk st)] in
+    call_fn X cbc__decrypt__IvState__Decryptor__iv_state [self] = Some (VBlk (cbc_iv_state st), [self]).
+  Proof. unfold call_fn, call_src. evf. reflexivity. Qed.
 End Cbc.
+
